@@ -26,16 +26,28 @@ CHECKS = {
          "Closed under the global context."),
  "C08": ("proof", "Quota/distinctness/allowed-cells, done-exactly-at-quota and bookkeeping (nearest-facility distances, uncovered weights) proved in Coq for FLP, MCP, DPP, MDPP for every instance and admitted order; correspondence compares mask, done, chosen and bookkeeping tensors after every step; known finding: per-row quotas in one batch (no inert action for finished rows).",
          "EDA envs are constructed on synthetic .npy data written by the harness (the real data cannot be downloaded); the decap simulator reward is outside the property. Closed under the global context."),
+ "C09": ("proof", "Best-so-far bookkeeping proved exact for any operator and any history (cost_bsf = min of costs seen = cost of rec_best, never increases, reward = decrease, telescoping); 2-opt and PDP ruin-repair proved to preserve tour validity (single cycle; pickup before delivery) for every mask-admitted move and for whole runs of any length incl. step_to_solution; reported costs are tour lengths. k-opt (k = 3, 4) is proved exhaustively for n <= 8 / 7 (bound stated in the theorem: partial), larger k and n are covered by the correspondence only. Correspondence compares rec_current, rec_best, visited_time, costs and reward after every step of long random / mask-drawn / improve-then-worsen / policy-produced move sequences (N2S, DACT, NeuOpt as move sources), full mask matrices, and the k-opt builder's support.",
+         "k_opt_valid for k >= 3 beyond the bound is not proved; policies enter only as move sources; float32 outside the theorems. Closed under the global context."),
  "C10": ("proof", "process_logits / greedy / sampling modelled over an abstract ordered field with an abstract monotone exponential; normalisation, support, argmax preservation, top-k cardinality, top-p mass, shift invariance (without clipping) and feasibility of greedy/sampled actions proved for all logits/masks/parameters; instantiated at (Z,Qc,2^z) (axiom-free, executable, used by the correspondence on ln2-multiples logits) and at (R,R,exp).",
          "tanh/log/float rounding not modelled (clip = arbitrary monotone map). R instances depend on the stdlib real axioms sig_forall_dec, sig_not_dec, classic, functional_extensionality_dep; the Qc instances are closed. torch.multinomial contract (returns an index of positive weight) trusted."),
+ "C11": ("proof", "ConstructivePolicy.forward + DecodingStrategy (pre/step/post hooks, Greedy/Sampling/Evaluate, multistart forced step, select_best) + get_log_likelihood + calculate_entropy modelled per row for whole batches, parametric in ANY environment and ANY per-row decoder function; proved for all batches/modes/finishing times: every returned row is the spec's function of its own returned actions (LL = sum of masked-normalised step log-probs; forced, flagged and single-feasible padding steps contribute 0), evaluate round trip for passes without forced starts (actions, states, per-step LL, reward, entropy), PPO ratio one (closed at (Z,Qc,2^z) and (R,R,exp)); the multistart round trip is refuted for policy(actions=returned) (known finding) and proved for the tail. PARTIAL: the network is an uninterpreted per-row function assumed identical in both passes. Correspondence: a stub decoder with hash-derived logits in the real policy machinery on real envs compared with the model in Coq (actions exact, LL), and the real zoo policies checked on their own recorded per-step logits.",
+         "Network determinism between the two passes is NOT modelled (MatNet counter-example is a known finding); start nodes, rewards and multinomial draws enter as inputs; policies with their own loop (MDAM, PointerNetwork, MultiStageFFSP, DeepACO val/test, improvement policies) are outside the model. C11_ppo_ratio_one_R depends on sig_forall_dec, sig_not_dec, classic, functional_extensionality_dep; the other theorems are closed."),
  "C12": ("proof", "batchify/unbatchify/unbatchify_and_gather/select_best/select_start_nodes/get_num_starts and the decoder, POMO, SymNCO, active-search regroupings modelled on lists; row r = instance r mod B, inverse round trips for any nesting, start layout/distinctness/feasibility per env rule and best-selection proved for all sizes; correspondence is exhaustive over small shapes on tagged tensors and TensorDicts and per-env start rules on real reset masks. Four start-node defects are recorded as known findings with _refuted theorems.",
          "Closed under the global context."),
+ "C13": ("proof", "BeamSearch (pre_decoder_hook, _make_beam_step/_step, _backtrack, _select_best_beam, get_log_likelihood) modelled per row with a ghost history; proved for all widths, batch sizes, node counts, step counts, environments and score structures: backtracking = history of the state in the row; kept = w best expansions of the instance's own rows (injective parent/action, tie rule stated); distinct beams from distinct starts; admitted beams; under no-dead-end (C02) + C10 support the loop never raises; fewer than w finite expansions always selects -inf (never silently); score = sum of step scores; select_best = first maximum over the instance's own beams. Correspondence: stub decoder and the real AM policy with a ghost-history key in the TensorDict; the model is compared on (instance, history) of every row at every step, actions, scores, rewards; spec-on-impl replays every beam through the real env.",
+         "Forced starts are an input (C12); tie / near-tie cases are excluded from the model comparison and covered by spec-on-impl only; torch.topk order among equal values unspecified. 18/19 theorems closed; C13_beam_search_R depends on the Coq.Reals axioms (sig_forall_dec, sig_not_dec, classic, functional_extensionality_dep)."),
+ "C14": ("proof", "PARTIAL. Proved for every batch size, number of starts, instance size and width: a tensor-shape calculus model of every env-embedding class (context, dynamic, init) and of the AM decoder's glimpse query gives the documented output shape (so no squeeze can lose the batch axis at batch size 1); the batch-global first-step test equals its row-wise reading under the shared-counter invariant; and policy_rowwise: a row-wise encoder/decoder plus a padding-inert env gives actions, reward and log-likelihood independent of batch size, position and batch-mates. The shape model is tied to the code by running every real embedding module for B in {1,2,3} and comparing output shape / raises in Coq, fail-closed on classes the table does not cover. NOT proved: that the neural layers are row-wise; that hypothesis is only tested differentially (solo vs batches of 2/3/7 of the bundled constructive policies, random weights, greedy).",
+         "models/nn/** is not modelled; torch rank rules trusted; a numeric cross-row leak inside a layer is detectable only by the differential test (testing, not proof). Closed under the global context."),
  "C15": ("proof", "Dihedral-8 and rotation/reflection maps proved isometries (squared distance) over every ordered field about definitions regenerated from transforms.py by the translator on every run; tour-cost invariance for any action list; evaluation regrouping (augment / multistart / both / sampling), best-of-k >= member, padding inertness proved on the list model of C12; correspondence runs the real StateAugmentation on dyadic coordinates and evaluate_policy with a stub decoder for all methods x loader batch sizes.",
          "cos/sin are variables constrained by c^2+s^2=1; float rounding outside. R instances depend on sig_forall_dec, sig_not_dec, functional_extensionality_dep. normalize=True (documented rescaling) and SymNCO's internal best_aug_actions are outside the property and only recorded."),
  "C16": ("proof", "REINFORCE (all baselines), POMO/SymNCO shared baselines, A2C and PPO losses modelled with forward-mode dual numbers over an ordered field (detach = zero tangent): value = stated surrogate, gradient w.r.t. log-likelihoods = reference gradient, rewards/baselines carry no gradient, shared advantages are zero-mean per instance, no BxB broadcast (shape calculus); arithmetic cores regenerated from the source by the translator; correspondence compares loss and autograd .grad of the real calculate_loss/shared_step on dyadic inputs with the model's value and tangents.",
          "autograd, optimiser and the networks are not modelled (the tangent = torch gradient claim is validated by the correspondence). R instances depend on sig_forall_dec, sig_not_dec, functional_extensionality_dep."),
  "C17": ("proof", "Dataset classes, collation, DataLoader chunking contract, ExtraKeyDataset and RolloutBaseline wrapping modelled on lists: loader round trip for any batch size incl. final partial batch, (instance, extra) pairs travel together under any permutation, rollout values aligned with items; correspondence is exhaustive over N<=7 tagged instances x batch sizes 1..N+1 x shuffle x extra key with the real classes.",
          "DataLoader sampler contract is a Section hypothesis (num_workers>0 not exercised). Closed under the global context."),
+ "C18": ("proof", "PARTIAL (sampling assumed in range, float32 not modelled). The deterministic post-processing of the generators is modelled and proved for all sizes: ATSP tmat_class = one vectorised Floyd-Warshall pass gives the triangle inequality; CVRP demand/capacity table (incl. off-table sizes), CVRPTW window construction and repair, MTVRP time windows / demands / distance limit / preset subsampling, OP prizes, PDP pairing, SVRP sorted technicians, FJSP/JSSP op-index partition and eligibility, FFSP, SMTWTP, MCP, FLP formats -- each stated with the wfb/solvableb predicates of the environment theorems, so with C02 every generated instance completes. Tie: model-vs-code on chosen raw draws (fixed samplers / patched RNG calls, exact dyadic data) and wfb/solvableb evaluated in Coq on unmodified generator output over many parameterisations.",
+         "mTSP, PCTSP, MDCPDP capacity, TSP, coordinate bounds and MCP distinctness are property-evaluated only; argsort returns a permutation is a hypothesis. Closed under the global context."),
+ "C19": ("proof", "PARTIAL. Proved for all sizes: FJSP/JSSP text codec read(write(i)) = i up to padding (word level + character layer), rejected inputs covered explicitly; npz key/batch bookkeeping and CVRP/MTVRP loader normalisation over any ordered field, with the npz byte format as an explicit hypothesis. The codec and loader models are tied to the code by a Coq-evaluated correspondence on written/parsed files incl. 28 kinds of malformed files. NOT provable (no executable model): np.savez/np.load bytes, deepcopy/pickle of environments, Lightning checkpoints, file generators -- these are differentially TESTED (save/load/compare; same masks and rewards along random action sequences; restored policy gives the same greedy actions) and reported as testing in the evidence.",
+         "Library I/O behaviour is tested, not proved. Closed under the global context."),
  "C20": ("proof", "Welford count/mean/M2 exactness, sample variance, scaler output, EMA recurrence and bounds, warm-up alpha and convex combination proved in Coq over every ordered field for every history of batches, about definitions regenerated from /repo by a fail-closed ast translator on every run; the translated code is also executed at Qc against the real classes.",
          "sqrt abstract; float rounding and count=1 outside the theorems; R instance depends on sig_forall_dec, functional_extensionality_dep."),
 }
@@ -50,6 +62,8 @@ def load_extra():
         for k, v in d.get("checks", {}).items():
             CHECKS[k] = tuple(v)
         NOT_APPLICABLE.extend(d.get("not_applicable", []))
+        for k in d.get("pending", []):      # built but not yet verified green on the unchanged tree: not claimed
+            CHECKS.pop(k, None)
 
 def main():
     load_extra()
